@@ -268,7 +268,7 @@ func TestC06(t *testing.T) {
 			n := input.(rrIn).n
 			return output.(int) == c%n, c + 1
 		},
-		Equal: func(a, b interface{}) bool { return a.(int) == b.(int) },
+		Equal:             func(a, b interface{}) bool { return a.(int) == b.(int) },
 		DescribeOperation: func(in, out interface{}) string { return fmt.Sprintf("select(n=%d)->%d", in.(rrIn).n, out.(int)) },
 	}
 	for h := 0; h < rrConc; h++ {
